@@ -113,10 +113,10 @@ var mocksRegistered = map[string]bool{}
 
 // registerMock registers one mock through the public API (panics on duplicates, as the API does).
 func registerMock(s mockSpec) {
-	if mocksRegistered[s.Name] {
+	if mocksRegistered[s.Name+"/"+s.Kind] {
 		return
 	}
-	mocksRegistered[s.Name] = true
+	mocksRegistered[s.Name+"/"+s.Kind] = true
 	md := lint.LintMetadata{Name: s.Name, Description: "verif mock " + s.Name, Citation: "verif", Source: s.Source,
 		EffectiveDate: s.Eff, IneffectiveDate: s.Ineff}
 	switch s.Kind {
